@@ -8,6 +8,12 @@ and sibling tables of the same mapping agree:
   across OpType::decompose / from_action_and_value / ValueRef::from_action_value
   (the op-set's TryFrom<Action> for ObjType is an apply-side table, checked under C03).
 The compressed-change path keeps the outer checksum and hashes the inflated data (C14's R1-wire, re-run here).
+(R5-encpair) In the row-wise change-op encoder every column range `XRange::from(start..out.len())` tags bytes that the
+matching `XEncoder::finish()` has just produced (the range type selects the decoder: a BooleanEncoder's bytes tagged as a
+MaybeBooleanRange decode differently / re-encode to another hash).
+(R5-order) The bundle writer and reader agree on the canonical order of the ID_CTR_INVERSE permutation: both sort by the
+first two components of their element tuples, the writer's are (op.id.actor(), op.id.counter()), the reader's (change.actor,
+change.seq) — actor first on both sides.
 Not decided: byte-level round-trip of whole changes and bundles (values, run-length encodings).
 """
 from .. import cfg, util, facts, tables
@@ -71,6 +77,8 @@ def run(ctx):
     ctx.not_decided = "byte-level round-trip of changes and bundles (column contents, run-length structure, ordering)."
     ctx.rule("R5-table", "extracted match tables of encoder and decoder are inverse on their common domain; the decoder's wildcard arm errors (or is total)")
     ctx.rule("R5-sibling", "tables implementing the same mapping in different places agree arm by arm")
+    ctx.rule("R5-encpair", "row-wise encoder: each XRange::from is preceded (latest dominating finish) by XEncoder::finish of the same family")
+    ctx.rule("R5-order", "bundle ID_CTR_INVERSE: writer and reader sort keys are (elem.0, elem.1) with the actor as first component on both sides")
     f = ctx.facts()
     ae, _ = tbl(ctx, f, T["action_enc"])
     ad, _ = tbl(ctx, f, T["action_dec"])
@@ -128,3 +136,80 @@ def run(ctx):
             ctx.ob("R5-sibling", "%s|%s -> ObjType::%s" % (name, action, obj), got == obj, b.rec["sp"],
                    "agrees with OpType::decompose" if got == obj else "OpType::decompose writes Action::%s for ObjType::%s but %s maps it to %s" % (action, obj, name, v))
     C14.check_wire_checksum(ctx, f)
+    check_encpair(ctx, f)
+    check_inverse_order(ctx, f)
+
+
+def stem(name):
+    import re
+    m = re.search(r"::(\w+?)(Range|Encoder)\b", name)
+    return m.group(1) if m else None
+
+
+def check_encpair(ctx, f):
+    b = ctx.body("automerge::storage::change::change_op_columns::ChangeOpsColumns::encode_rowwise")
+    calls = [(bi, t) for bi, t in b.calls()]
+    fins = [(bi, t) for bi, t in calls if (norm_fn(t.get("fn")) or "").endswith("Encoder::finish") and "columnar::encoding" in (t.get("fn") or "")]
+    froms = [(bi, t) for bi, t in calls if norm_fn(t.get("fn")) == "core::convert::From::from" and t.get("ga") and "Range" in t["ga"][0].split("<")[0] and "column_range" in t["ga"][0]]
+    ctx.floor("XRange::from(range) constructions in encode_rowwise", len(froms), 4)
+    ctx.floor("raw XEncoder::finish() calls in encode_rowwise", len(fins), 4)
+    for k, (bi, t) in util.ordinal_keys(froms, lambda it: "encode_rowwise|%sRange::from" % stem(it[1]["ga"][0])):
+        doms = [(fb, ft) for fb, ft in fins if fb != bi and b.block_dominates(fb, bi)]
+        # the latest dominating finish: the one dominated by all the others
+        last = [x for x in doms if all(b.block_dominates(y[0], x[0]) for y in doms)]
+        got = stem(norm_fn(last[0][1]["fn"])) if last else None
+        want = stem(t["ga"][0])
+        ctx.ob("R5-encpair", k, got == want and got is not None, t["sp"], "bytes from %sEncoder::finish" % got if got == want else
+               "bytes produced by %sEncoder are tagged as a %sRange (decoded with the %s decoder)" % (got, want, want))
+
+
+def check_inverse_order(ctx, f):
+    def key_closure(path):
+        b = ctx.body(path)
+        sorts = [(bi, t) for bi, t in b.calls() if (norm_fn(t.get("fn")) or "").startswith("core::slice::sort") and "by_key" in norm_fn(t["fn"])]
+        out = []
+        for bi, t in sorts:
+            cl = [g for g in t.get("ga", []) if g.startswith("{closure@")]
+            for r in f.closures_of(path):
+                if cl and r["sp"].split(":")[1] == cl[0].split(":")[1]:
+                    cb = cfg.body(r)
+                    for blk in cb.blocks:
+                        for st in blk["st"]:
+                            if st["d"]["l"] == 0 and st["rv"]["k"] == "Agg":
+                                out.append((t, [cb.operand_origin(o) for o in st["rv"]["o"]]))
+        return b, out
+    W = "automerge::storage::bundle::builder::BundleOpWriter::<'a>::finish"
+    R = "automerge::storage::bundle::storage::extract_id_ctr_values"
+    for side, path in (("writer", W), ("reader", R)):
+        b, keys = key_closure(path)
+        ctx.floor("sort_by_key calls in %s" % path.split("::")[-1], len(keys), 1)
+        for t, origins in keys:
+            comps = [[e for e in (o[1] if o else ()) if e.startswith(".")] for o in origins]
+            ok = comps == [[".0"], [".1"]]
+            ctx.ob("R5-order", "%s|sort key is (elem.0, elem.1)" % side, ok, t["sp"], "key components %s" % comps)
+    # element tuples: first component is the actor on both sides
+    ab = ctx.body("automerge::storage::bundle::builder::BundleOpWriter::<'a>::add")
+    pushes = [(bi, t) for bi, t in ab.calls() if norm_fn(t.get("fn")) == "alloc::vec::Vec::push" and ".inverse_positions" in (ab.operand_origin(t["args"][0]) or (0, ()))[1]]
+    ctx.floor("pushes onto inverse_positions", len(pushes), 1)
+    for bi, t in pushes:
+        pl = util.op_place(t["args"][1])
+        d = ab.single_def(pl["l"]) if pl else None
+        ok = False
+        detail = "element is not a tuple aggregate"
+        if d and d[1] != "t" and d[2]["rv"]["k"] == "Agg":
+            ops = d[2]["rv"]["o"]
+            names = [sorted({norm_fn(c).split("::")[-1] for c in ab.provenance(o, through_calls=True).callees()}) for o in ops]
+            ok = len(names) >= 2 and "actor" in names[0] and "counter" in names[1]
+            detail = "element components from %s" % names
+        ctx.ob("R5-order", "writer|element is (id.actor(), id.counter(), doc_pos)", ok, t["sp"], detail)
+    rb = ctx.body(R)
+    maps = []
+    for r in f.closures_of(R):
+        cb = cfg.body(r)
+        for blk in cb.blocks:
+            for st in blk["st"]:
+                if st["d"]["l"] == 0 and st["rv"]["k"] == "Agg" and len(st["rv"]["o"]) == 4:
+                    maps.append([[e for e in (cb.operand_origin(o) or (0, ()))[1] if e.startswith(".")] for o in st["rv"]["o"]])
+    ctx.floor("change-metadata tuple constructions in the reader", len(maps), 1)
+    for m in maps:
+        ctx.ob("R5-order", "reader|element is (change.actor, change.seq, start_op, max_op)", m[:2] == [[".actor"], [".seq"]], rb.rec["sp"], "element components %s" % m)
